@@ -318,13 +318,26 @@ def oracle(ctx, seeds=None):
                     rm_ = [np.array(x, dtype=float).copy() for x in disc.rhs(fm)]
                     for qq in range(neq):
                         Jr[qq::neq, c * neq + q_] = (rp_[qq] - rm_[qq]) / (2 * h)
-            return J, Jr
+            # curvature allowance: a forward difference of relative size 1e-6 (the documented perturbation) is off by eps*f''/2, which
+            # is what two forward differences of sizes eps and 2 eps differ by (large next to almost-vacuum extrapolated face states)
+            r0_ = [np.array(x, dtype=float).copy() for x in disc.rhs(f.copy())]
+            curv = np.zeros_like(J)
+            for c in range(n):
+                for q_ in range(neq):
+                    e_ = 1e-6 * (float(np.sum(np.abs(f.data[q_]))) / n or 1.0)
+                    f1 = f.copy(); f1.data[q_][c] += e_
+                    f2 = f.copy(); f2.data[q_][c] += 2 * e_
+                    r1_ = [np.array(x, dtype=float).copy() for x in disc.rhs(f1)]
+                    r2_ = [np.array(x, dtype=float).copy() for x in disc.rhs(f2)]
+                    for qq in range(neq):
+                        curv[qq::neq, c * neq + q_] = np.abs((r2_[qq] - r0_[qq]) / (2 * e_) - (r1_[qq] - r0_[qq]) / e_)
+            return J, Jr, curv
         ok, out = impl.guarded(run)
         res.case((model, 'jacobian', cfg['scheme'][0], cfg['bcL']['type']))
         if not ok:
             res.fail(model + ':jacobian-raised', out, dict(cfg=cfg)); continue
-        J, Jr = out
-        if not np.all(np.isfinite(Jr)):
+        J, Jr, curv = out
+        if not np.all(np.isfinite(Jr)) or not np.all(np.isfinite(curv)):
             continue
         # non-dimensional comparison: entry (i,j) maps a perturbation of component j to the rate of component i
         neq = mod.neq
@@ -340,7 +353,8 @@ def oracle(ctx, seeds=None):
         compsc = np.array([nat[k % neq] for k in range(J.shape[0])])
         Jn = J * compsc[None, :] / compsc[:, None]
         Jrn = Jr * compsc[None, :] / compsc[:, None]
-        if not np.max(np.abs(Jn - Jrn)) <= 2e-4 * np.max(np.abs(Jrn)) + 1e-6 * S:
+        curvn = curv * compsc[None, :] / compsc[:, None]
+        if not np.all(np.abs(Jn - Jrn) <= 2e-4 * np.max(np.abs(Jrn)) + 1e-6 * S + 4.0 * curvn):
             res.fail(model + ':jacobian', "finite-difference Jacobian differs from the derivative by %r (max entry %r; non-dimensional entries, wave speed / cell size = %r)" % (float(np.max(np.abs(Jn - Jrn))), float(np.max(np.abs(Jrn))), S), dict(cfg=cfg))
     # ---- gear through the driver: "starts with one Crank-Nicolson step of size dt and then follows the BDF2 recurrence" for EVERY
     #      solve(): (a) also when a snapshot is requested strictly inside the first step (its side step is not the start of the
